@@ -219,10 +219,11 @@ pub fn record(args: &Args) {
     if mode == "c02" {
         // EXTREME magnitudes: no envelope (the statistics leave 32 bits), the comparison bound >= true regret on the
         // floating-point numbers themselves (order tokens)
-        for (name, t) in zoo::extreme() {
+        let (tn, tt, tu) = zoo::tiny_units();
+        for (name, t, unit) in zoo::extreme().into_iter().map(|(n, t)| (n, t, 1.0)).chain(std::iter::once((tn, tt, tu))) {
             for budget in [1u64, 4, 25, 100, 400] {
                 for k in [1usize, 2] {
-                    for thr in [0.0, 0.05] {
+                    for thr in [0.0, 0.05 * unit] {
                         if xrun_event(&mut out, &name, &t, k, budget, thr) {
                             runs += 1;
                         }
